@@ -209,6 +209,10 @@ type name struct {
 
 func extractParamToFieldMap(fn *ast.FuncDecl) map[string]name {
 	m := make(map[string]name)
+	if fn.Body == nil {
+		//a declaration without body binds no parameter to a field
+		return m
+	}
 	ast.Inspect(fn.Body, func(n ast.Node) bool {
 		ret, ok := n.(*ast.ReturnStmt)
 		if !ok || len(ret.Results) == 0 {
